@@ -59,6 +59,9 @@ CheckFin(s) == IF s.sig.term # U /\ s.lk.write = NONE /\ s.lk.read = NONE /\ s.s
 \* Writer.Empty(): the atomic flag is raised when a frame enters an empty buffer and lowered only after
 \* the transport Write has returned, so a write in flight counts as "not empty"
 NonEmpty(w) == w.buf # <<>> \/ w.out # <<>>
+\* payload tags the user's Unmarshal rejects
+BadTags == {"bad1", "bad2", "bad3", "bad4", "bad5", "bad6"}
+IsBad(tag) == tag \in BadTags
 CCE(s, e) == IF s.sig.cancel # U THEN s.sig.cancel ELSE e     \* checkCancelError
 
 Frame(s, kind, done, ctl, tag) == [sid |-> s.id, mid |-> s.msgid, kind |-> kind, done |-> done, ctl |-> ctl, tag |-> tag]
@@ -163,8 +166,10 @@ Do(s, th, w, self, manual) ==
   [] th.pc = "mr.get" ->
         IF s.pb.err # U THEN R(s, Fin(th, s.pb.err, "mr.runlock"), w)
         ELSE R([s EXCEPT !.pb.held = TRUE], [th EXCEPT !.pc = IF th.op = "MsgRecv" THEN "um" ELSE "mr.done", !.aux = s.pb.tag], w)
-  [] th.pc = "mr.done" ->
-        R([s EXCEPT !.pb = [set |-> FALSE, held |-> FALSE, err |-> s.pb.err, tag |-> NONE]], [Fin(th, "msg:" \o th.aux, "mr.runlock") EXCEPT !.k = 1], w)
+  [] th.pc = "mr.done" ->      \* pbuf.Done(); a payload the user's encoding cannot decode (tag "bad...") is consumed all the same
+        R([s EXCEPT !.pb = [set |-> FALSE, held |-> FALSE, err |-> s.pb.err, tag |-> NONE]],
+          IF th.op = "MsgRecv" /\ IsBad(th.aux) THEN Fin(th, "decodeErr", "mr.runlock")
+          ELSE [Fin(th, "msg:" \o th.aux, "mr.runlock") EXCEPT !.k = 1], w)
   [] th.pc = "mr.runlock" -> R([s EXCEPT !.lk.read = NONE], Goto(th, "mr.cf"), w)
   [] th.pc = "mr.cf" -> R(CheckFin(s), Goto(th, "ret"), w)
   (* -------- CloseSend / Close / SendError -------- *)
